@@ -1,6 +1,8 @@
 (* C12 - Untrusted bytes never crash or balloon the process.
    Statements restated from Proofs/CodecProofs.v and Proofs/CodecProofs2.v (closed by [exact]).
-   Partial: these theorems are about the parser model (total by construction, no amplification, bounded pre-size);
+   Partial: these theorems are about the parser model (total by construction, no amplification, bounded pre-size; at the end
+   of the file, from Proofs/TypedDec2Size.v: at the typed level the decoded VALUE is bounded by the bytes read -
+   2 * weight <= 3 * bytes + 3, at most one caveat per two bytes nested ones included, nesting depth <= bytes read);
    panics and real allocation of the Go runtime are exhibited by the fuzz oracle of the `malformed` stream. *)
 From Coq Require Import List Bool NArith ZArith.
 From Mac Require Import Model.Caveat Model.Msgpack Model.Codec Proofs.CodecProofs Proofs.CodecProofs2.
